@@ -4,6 +4,7 @@
 //! never reported as proved.
 use serde_json::{json, Value};
 
+pub mod cjson;
 pub mod pushcond;
 pub mod redact;
 pub mod sign;
@@ -30,6 +31,7 @@ pub fn run(name: &str, tier: &str) -> Option<Value> {
     Some(match name {
         "redact" => redact::run(tier).to_json(),
         "pushcond" => pushcond::run(tier).to_json(),
+        "cjson" => cjson::run(tier).to_json(),
         "sign" => sign::run(tier).to_json(),
         "uri" => uri::run(tier).to_json(),
         _ => return None,
